@@ -140,14 +140,14 @@ PROPS["C09"] = dict(
 PROPS["C20"] = dict(
     pkg="props/c20", level="exploration", engine="E-model", design_ref="§4 C20",
     technique="differential PBT (rapid): Kaitai-generated reader vs native reader + independent header decoder on generated files",
-    rule=("case = file of 0..12 nil/empty/patterned records (up to 5000 bytes) under one of the four compression types and a generated write buffer; the bytes are parsed with "
+    rule=("case = file of 0..12 nil/empty/patterned records (up to 5000 bytes) under one of the four compression types and a generated write buffer, in a quarter of the cases followed by a Seek back over the last 1..3 records and 0..2 rewritten records (a rolled-back write); the bytes are parsed with "
           "gokaitai.RecordioV4 and compared with the native reader (count, nil flags) and with the stored payload bytes located by the offsets Write returned and an independent "
           "header decoder; the header's compression code must be one of the constants of the generated package (read with go/parser from the tree); non-trivial = file with >=1 nil, "
           ">=1 empty and >=1 non-empty record; distinct = distinct case JSON"),
     level_text="Differential between two decoders of the same bytes with an exact equality oracle; sampled exploration over record sequences x all four compression types.",
     level_note="'known to the schema' is decided against the generated Go package in the repository, not other Kaitai targets; enum label names are not asserted; besides count, nil flags and payload bytes the decoded header fields (lengths, checksum, magic) are compared with the bytes on disk, since a mis-decoded multi-group integer is a mis-decoded record",
     assumptions=COMMON_ASSUME,
-    require_labels=["comp=0", "comp=1", "comp=2", "comp=3"],
+    require_labels=["comp=0", "comp=1", "comp=2", "comp=3", "seek-back-and-rewrite"],
     quick=dict(shards=16, checks=200),
     thorough=dict(fuzz_s=180, shards=16, checks=5000, timeout_s=3600),
 )
